@@ -1,4 +1,4 @@
 \* every pods-guard weakening in one TLC run (pods grid)
-CONSTANTS NTypes = 2  Prices = {1}  ZMods = {"same"}  MaxCands = 1  MinS2S = 2  Focus = "pods"  Weak = "*pods"  GenMod = 1  GenRes = 0
+CONSTANTS NTypes = 2  Prices = {1}  ZMods = {"same"}  MaxCands = 1  MinS2S = 2  Focus = "pods"  UnavCTs = {}  Weak = "*pods"  GenMod = 1  GenRes = 0
 SPECIFICATION Spec
 INVARIANTS WeakDetect
